@@ -283,6 +283,30 @@ func bindKdc(rep *Report, env *Env) int {
 			viol("message-for-an-unconfigured-realm-sent-to-a-kdc/"+name, fmt.Sprintf("status %d; %d message(s) arrived at KDCs of other realms", resp.Status, after-before))
 		}
 	}
+	// a client that sends its complete request, shuts down its sending side and keeps reading (legal with
+	// Connection: close) is answered like any other
+	for k := 0; k < 3; k++ {
+		n++
+		rep.add("executions", 1)
+		c, err := g.Dial()
+		if err != nil {
+			break
+		}
+		body := der.KdcProxyMessage(msg, "TCPREPLY.TEST", true, 0, false)
+		req := fmt.Sprintf("POST /KdcProxy HTTP/1.1\r\nHost: gw.example\r\nConnection: close\r\nContent-Type: application/kerberos\r\nContent-Length: %d\r\n\r\n", len(body))
+		c.SetDeadline(time.Now().Add(30 * time.Second))
+		c.Write(append([]byte(req), body...))
+		if cw, ok := c.(interface{ CloseWrite() error }); ok {
+			cw.CloseWrite()
+		}
+		resp := ReadResponse(bufio.NewReader(c))
+		c.Close()
+		rep.outcome(fmt.Sprintf("binary kdc half-closing client status=%d", resp.Status))
+		if resp.Status != 200 {
+			viol("reachable-kdc-but-no-answer/client-shut-down-its-sending-side", fmt.Sprintf("round %d: the client sent the whole request, shut down its sending side and kept reading: status %d closed=%v (the realm's KDC replies at once)", k, resp.Status, resp.Closed))
+			break
+		}
+	}
 	// other methods and malformed bodies are answered too
 	for _, c := range []struct {
 		method string
